@@ -36,6 +36,8 @@ type Options struct {
 	ShardDepth    int // decisions whose alternatives are distributed over shards (default 1)
 	// Exclusive: no uncontrolled goroutine touches the shims (see vsched.Sched.Exclusive).
 	Exclusive bool
+	// StartQuiet: exploration starts switched off; the harness calls vsched.SetExplore(true).
+	StartQuiet bool
 }
 
 type Stats struct {
@@ -77,6 +79,9 @@ func runOnce(setup func() *Exec, opt Options, prefix []int) runResult {
 	ch := &replayChooser{prefix: prefix}
 	s := vsched.New(ex.Threads, ch.choose)
 	s.Exclusive = opt.Exclusive
+	if opt.StartQuiet {
+		s.StartQuiet()
+	}
 	if opt.MaxSteps > 0 {
 		s.MaxSteps = opt.MaxSteps
 	}
